@@ -713,7 +713,7 @@ class XsdAtomicBuiltin(XsdAtomic):
         if validation == 'skip':
             try:
                 return self.to_python(obj)
-            except (ValueError, TypeError, DecimalException):
+            except (ValueError, TypeError, ArithmeticError):
                 return raw_encode_value(obj)
 
         if self.patterns is not None:
@@ -724,7 +724,8 @@ class XsdAtomicBuiltin(XsdAtomic):
 
         try:
             result: DecodedValueType = self.to_python(obj)
-        except (ValueError, DecimalException) as err:
+        except (ValueError, ArithmeticError) as err:
+            # ArithmeticError includes DecimalException and OverflowError (e.g. huge years)
             context.decode_error(validation, self, obj, self.to_python, err)
             return None
         except TypeError:
